@@ -428,10 +428,11 @@ func (n *TreeNodeInstance) createValueAndVerify(t reflect.Type, msg *ProtocolMsg
 	tr := n.Tree()
 	if t != nil {
 		tn := tr.Search(msg.From.TreeNodeID)
-		if tn != nil {
-			m.Field(0).Set(reflect.ValueOf(tn))
-			m.Field(1).Set(reflect.Indirect(reflect.ValueOf(msg.Msg)))
+		if tn == nil {
+			return m, xerrors.New("sender of the message is not a node of the tree")
 		}
+		m.Field(0).Set(reflect.ValueOf(tn))
+		m.Field(1).Set(reflect.Indirect(reflect.ValueOf(msg.Msg)))
 		// Check whether the sender treenode actually is the same as the node who sent it.
 		// We can trust msg.ServerIdentity, because it is written in Router.handleConn and
 		// is not writable by the sending node.
